@@ -231,6 +231,73 @@ def mut_reaches_first(src):
     return replace_once(src, "    visited.add(current_instruction)\n\n    reaches = False\n", "    reaches = False\n\n    visited.add(current_instruction)\n")
 
 
+# ---- twin audit (same-typed names written for each other, swapped argument order / tuple components)
+def mut_entry_test_covered(src):
+    """(t1) the entry test of _find_instructions reads `covered` (twin sets visited / covered)"""
+    return replace_once(src, "    if current_instruction in visited:\n", "    if current_instruction in covered:\n")
+
+
+def mut_successor_test_visited(src):
+    """(t2) a successor is skipped when it is in `visited` (twin sets)"""
+    return replace_once(src, "        if next_ins in covered:\n", "        if next_ins in visited:\n")
+
+
+def mut_cover_into_visited(src):
+    """(t3) a reaching instruction is added to `visited` instead of `covered` (twin sets)"""
+    return replace_once(src, "            covered.add(current_instruction)\n", "            visited.add(current_instruction)\n")
+
+
+def mut_preds_over_covered(src):
+    """(t4) the predecessor map is built over `covered` (twin sets)"""
+    return replace_once(src, "    for ins in visited:\n", "    for ins in covered:\n")
+
+
+def mut_return_reaches(src):
+    """(t5) match_regex returns reaches_match (twin sets) for covered"""
+    return replace_once(src, "    return matches, covered\n", "    return matches, reaches_match\n")
+
+
+def mut_call_sets_swapped(src):
+    """(a1) match_regex passes (covered, matches, visited): the two set arguments of the same type exchanged"""
+    return replace_once(
+        src,
+        "    _find_instructions(label, regex.instructions, visited, matches, covered)\n",
+        "    _find_instructions(label, regex.instructions, covered, matches, visited)\n",
+    )
+
+
+def mut_rec_sets_swapped(src):
+    """(a2) the recursive call passes (covered, matches, visited)"""
+    return replace_once(
+        src,
+        "        if _find_instructions(next_ins, regex, visited, matches, covered):\n",
+        "        if _find_instructions(next_ins, regex, covered, matches, visited):\n",
+    )
+
+
+def mut_successors_callee_first(src):
+    """(a3) _successors: the callee entry before ins.next"""
+    return replace_once(
+        src,
+        "        return ins.next + [ins.called_subroutine.entry.entry_instr]\n",
+        "        return [ins.called_subroutine.entry.entry_instr] + ins.next\n",
+    )
+
+
+def mut_range_args(src):
+    """(a4) range(len(regex) - 1, 0): the two arguments of range exchanged"""
+    return replace_once(src, "        for _ in range(0, len(regex) - 1):\n", "        for _ in range(len(regex) - 1, 0):\n")
+
+
+def mut_is_equal_args(src):
+    """(a5) _is_equal(regex_ins, current_instruction): the function is symmetric (type identity, str equality)"""
+    return replace_once(
+        src,
+        "        if not _is_equal(current_instruction, regex_ins):\n",
+        "        if not _is_equal(regex_ins, current_instruction):\n",
+    )
+
+
 MUTATIONS = [
     ("(i) match cursor re-uses current_instruction", RX, mut_cursor_reused),
     ("(ii) _is_match steps along _successors", RX, mut_is_match_successors),
@@ -261,6 +328,16 @@ MUTATIONS = [
     ("(s10) try statement", RX, mut_try),
     ("(e1) EQUIVALENT: sets created in the other order", RX, mut_swap_inits),
     ("(e2) EQUIVALENT: reaches initialised first", RX, mut_reaches_first),
+    ("(t1) TWIN entry test reads covered", RX, mut_entry_test_covered),
+    ("(t2) TWIN successor skipped when visited", RX, mut_successor_test_visited),
+    ("(t3) TWIN visited.add for covered.add", RX, mut_cover_into_visited),
+    ("(t4) TWIN predecessor map over covered", RX, mut_preds_over_covered),
+    ("(t5) TWIN match_regex returns reaches_match", RX, mut_return_reaches),
+    ("(a1) ARGS match_regex passes (covered, .., visited)", RX, mut_call_sets_swapped),
+    ("(a2) ARGS recursive call passes (covered, .., visited)", RX, mut_rec_sets_swapped),
+    ("(a3) ARGS _successors: [callee] + ins.next", RX, mut_successors_callee_first),
+    ("(a4) ARGS range(len(regex) - 1, 0)", RX, mut_range_args),
+    ("(a5) ARGS _is_equal(regex_ins, current_instruction)", RX, mut_is_equal_args),
 ]
 EQUIVALENT = {"(e1) EQUIVALENT: sets created in the other order", "(e2) EQUIVALENT: reaches initialised first"}
 REQUIRED = 5  # the first five rows are the mutations required by the task
